@@ -497,6 +497,10 @@ impl Transport for tokio::net::TcpStream {
                 Box::pin(async move {
                     let s = tokio::net::TcpStream::connect(addr).await?;
                     let _ = s.set_nodelay(true);
+                    // closing the client side resets the connection instead of parking the
+                    // 4-tuple in TIME_WAIT: big runs would otherwise exhaust the loopback ports
+                    #[allow(deprecated)] // a zero linger never blocks
+                    let _ = s.set_linger(Some(Duration::ZERO));
                     Ok(s)
                 })
             });
@@ -1344,7 +1348,7 @@ pub fn generate(tier: &str, rng: &mut Rng) -> Vec<String> {
         if rng.chance(1, 8) {
             tr.push_str("-x2");
         }
-        if urihost == "ip" && rng.chance(1, 2) {
+        if urihost == "ip" && rng.chance(1, if thorough { 8 } else { 2 }) {
             tr.push_str("-native");
         }
         out.push(format!("tls {} {} {} ; {} {} {} {}", scheme, urihost, join_ops(&ops), servercert, alpn, sops, tr).replace("  ", " "));
